@@ -1,0 +1,11 @@
+//go:build verif
+
+package detector
+
+import "github.com/makiuchi-d/gozxing/verifhook"
+
+// VerifSnapshot hashes the package-level tables (monitor use only: taken at
+// quiescent points before and after a concurrent workload).
+func VerifSnapshot() uint64 {
+	return verifhook.DeepHash(EXPECTED_CORNER_BITS)
+}
